@@ -6,7 +6,13 @@
 //!   simrun selftest determinism <Cxx> [n]
 
 mod broker;
+mod cluster;
 mod framework;
+mod lin;
+mod migsim;
+mod slots;
+mod simnet;
+mod simredis;
 mod rng;
 mod sandbox;
 mod shuttle_eng;
@@ -21,6 +27,8 @@ static C10: broker::BrokerCheck = broker::BrokerCheck { prop: "C10" };
 static C12: broker::BrokerCheck = broker::BrokerCheck { prop: "C12" };
 static C13: broker::BrokerCheck = broker::BrokerCheck { prop: "C13" };
 static C18: broker::BrokerCheck = broker::BrokerCheck { prop: "C18" };
+static C03: migsim::MigrationCheck = migsim::MigrationCheck { prop: "C03" };
+static C19: migsim::MigrationCheck = migsim::MigrationCheck { prop: "C19" };
 static C11: shuttle_eng::ShuttleCheck = shuttle_eng::ShuttleCheck { prop: "C11" };
 
 fn lookup(id: &str) -> Option<&'static dyn Check> {
@@ -33,6 +41,8 @@ fn lookup(id: &str) -> Option<&'static dyn Check> {
         "C13" => &C13,
         "C18" => &C18,
         "C11" => &C11,
+        "C03" => &C03,
+        "C19" => &C19,
         _ => return None,
     })
 }
